@@ -496,7 +496,15 @@ def maneuver_inside_thrust_arc(facet, case, kind, msg, data):
             and overlap_active(case["mans"], data["t_us"]))
 
 
-FINDINGS = {"C16/maneuver-inside-thrust-arc": maneuver_inside_thrust_arc}
+def suspended_iteration(facet, case, kind, msg, data):
+    """AnalyticalPropagator._iter reads `self.orbit` at every step: an iteration that is suspended while another
+    orbit attached to the same propagator object is propagated goes on with that other orbit."""
+    return (facet == "multi_target" and kind == "suspended-iteration-multi" and data.get("step", 0) > 0
+            and any("share" in t for t in case["targets"]))
+
+
+FINDINGS = {"C16/maneuver-inside-thrust-arc": maneuver_inside_thrust_arc,
+            "C16/suspended-iteration-follows-reattached-propagator": suspended_iteration}
 
 
 # ------------------------------------------------------------------ spellings
@@ -546,7 +554,7 @@ def spell_case(draw, shard, tier):
     if d.int(0, 7) == 0:
         # the propagator obtained from a target orbit (each call registers a frame: kept to ~1 case in 8)
         sp.update(via="from_orbit", inc=d.u(0.05, 3.0), raan=d.u(0.0, 6.2), u0=d.u(0.0, 6.2))
-    return dict(sma=sma, ori=ori, k0=k0, x0=x0, mans=mans, qs=qs, body=body, api=d.pick("date", "date", "delta", "iter"),
+    return dict(sma=sma, ori=ori, k0=k0, x0=x0, mans=mans, qs=qs, body=body, api=d.pick("date", "date", "delta", "iter", "ephem"),
                 sp=sp, long=long)
 
 
@@ -564,6 +572,12 @@ def check_spellings(case):
     api = case["api"]
     if api == "iter":
         got = list(orb.iter(dates=dates))
+    elif api == "ephem":
+        # Orbit.ephem(): the same points gathered in an Ephem, which sorts them by date
+        order_ = sorted(range(len(qs)), key=lambda j: qs[j])
+        qs = [qs[j] for j in order_]
+        dates = [dates[j] for j in order_]
+        got = list(orb.ephem(dates=[dates[j] for j in sorted(range(len(qs)), key=lambda j: (j * 7) % len(qs))]))
     elif api == "delta":
         got = [orb.propagate(timedelta(microseconds=int(k))) for k in qs]
     else:
@@ -632,9 +646,13 @@ def multi_case(draw, shard, tier):
     ops = []
     for _ in range(d.int(3, 8)):
         j = d.int(0, len(targets) - 1)
-        kind = d.pick("propagate", "propagate", "copy", "copy", "coelliptic", "period", "hohmann", "n")
+        kind = d.pick("propagate", "propagate", "copy", "copy", "coelliptic", "period", "hohmann", "n", "chain", "chain",
+                      "bad_attach", "two_iters", "iter_interleaved", "iter_interleaved")
         P = period_us(targets[j]["sma"], targets[j]["body"])
-        ops.append(dict(j=j, kind=kind, t=int(d.u(-2.0, 2.0) * P), radial=d.signed(10.0, 3000.0)))
+        t = int(d.u(-2.0, 2.0) * P)
+        if d.int(0, 4) == 0:
+            t = d.pick(0, 0, 1, -1) if not ops or d.coin() else ops[-1]["t"]     # exactly the epoch / the previous date
+        ops.append(dict(j=j, kind=kind, t=t, t2=int(d.u(-2.0, 2.0) * P), radial=d.signed(10.0, 3000.0)))
     return dict(k0=d.int(0, 86_399_999_999), targets=targets, ops=ops, lazy=d.coin(), by_name=d.coin())
 
 
@@ -699,6 +717,70 @@ def check_multi(case):
                 j = int(np.argmax(np.abs(got - want) / tol))
                 raise Violation("hill-solution-multi", f"{who}: t={t!r} s, component {j} is {float(got[j])!r}, Hill's "
                                 f"equations about {tg['body']} give {float(want[j])!r} ({r:.3g} x tol)", ratio=r)
+        elif op["kind"] == "chain":
+            # a result handed out, propagated further by the caller (it shares the propagator: re-attached),
+            # asked at its own date, then the original asked again
+            x0 = np.array(tg["x0"], float)
+            first = orb.propagate(at(epoch, op["t"]))
+            v1 = state_of(first)
+            if not hasattr(first, "propagate"):
+                continue
+            same = state_of(first.propagate(first.date))
+            second = state_of(first.propagate(at(epoch, op["t2"])))
+            again = state_of(orb.propagate(at(epoch, op["t"])))
+            w1, sc1 = hill.piecewise(n, x0, [], op["t"] * US, tg["ori"])
+            w2, sc2 = hill.piecewise(n, x0, [], op["t2"] * US, tg["ori"])
+            tol = tol_state(n, max(sc1, sc2), n * (abs(op["t"]) + abs(op["t2"])) * US, 3)
+            for what_, val, want in (("the result asked at its own date", same, v1), ("the original asked again", again, v1)):
+                if not np.array_equal(val, want):
+                    raise Violation("chain-multi", f"{who}: {what_} gives {val.tolist()} instead of {want.tolist()}")
+            r = float(np.max(np.abs(second - w2) / tol))
+            worst = max(worst, r)
+            if r > 1:
+                raise Violation("chain-multi", f"{who}: the state at {op['t'] * US} s propagated on to {op['t2'] * US} s is "
+                                f"{second.tolist()}, Hill's equations give {w2.tolist()} ({r:.3g} x tol)", ratio=r)
+        elif op["kind"] == "bad_attach":
+            # an orbit that is not in a Hill frame is refused by the propagator - and the refusal leaves the
+            # propagator with the orbit it had
+            from beyond.orbits import Orbit
+
+            before = state_of(orb.propagate(at(epoch, op["t"])))
+            intruder = Orbit([7.0e6, 0.0, 0.0, 0.0, 7546.0, 0.0], epoch, "cartesian", "EME2000", orb.propagator)
+            try:
+                intruder.propagate(at(epoch, op["t"]))
+            except TypeError:
+                pass
+            else:
+                raise Violation("bad-attach-accepted", f"{who}: an orbit in EME2000 was propagated by the Clohessy-Wiltshire propagator")
+            after = state_of(orb.propagator.propagate(at(epoch, op["t"])))
+            if not np.array_equal(after, before):
+                raise Violation("bad-attach-not-atomic", f"{who}: after a refused orbit the propagator answers {after.tolist()} "
+                                f"instead of {before.tolist()} for the orbit it still holds")
+        elif op["kind"] in ("two_iters", "iter_interleaved"):
+            # two iterations of one orbit alive together / an iteration suspended while another chaser of the
+            # same target (attached to the same propagator object) is propagated
+            x0 = np.array(tg["x0"], float)
+            ks = [op["t"], op["t2"], (op["t"] + op["t2"]) // 2]
+            dates = [at(epoch, k) for k in ks]
+            it1 = orb.iter(dates=dates)
+            it2 = orb.iter(dates=dates) if op["kind"] == "two_iters" else None
+            mates = [j2 for j2, t2_ in enumerate(case["targets"]) if j2 != op["j"] and
+                     (t2_.get("share") == op["j"] or tg.get("share") == j2 or ("share" in tg and t2_.get("share") == tg["share"]))]
+            for i_, k_ in enumerate(ks):
+                got = state_of(next(it1))
+                if it2 is not None and not np.array_equal(state_of(next(it2)), got):
+                    raise Violation("two-iterators-multi", f"{who}: two iterations of one orbit disagree at step {i_}")
+                if it2 is None and mates:
+                    get(mates[0])[0].propagate(at(epoch, op["t2"]))          # re-attaches the shared propagator
+                want, scale = hill.piecewise(n, x0, [], k_ * US, tg["ori"])
+                tol = tol_state(n, scale, n * k_ * US, 1)
+                r = float(np.max(np.abs(got - want) / tol))
+                worst = max(worst, r)
+                if r > 1:
+                    raise Violation("suspended-iteration-multi" if (it2 is None and mates and i_ > 0) else "hill-solution-multi",
+                                    f"{who}: point {i_} of iter(dates=) is {got.tolist()}, Hill's equations for THIS orbit give "
+                                    f"{want.tolist()} ({r:.3g} x tol)" + (" - another orbit attached to the same propagator was "
+                                    "propagated while the iteration was suspended" if mates and it2 is None else ""), ratio=r, step=i_)
         elif op["kind"] == "coelliptic":
             # CWHelper.coelliptic() labels its orbit 'Hill' as well
             t = op["t"] * US
